@@ -291,3 +291,83 @@ Definition spec_of_transform (tr : transform) (form : cell) : spec_out :=
                  (map (fun r => (p_expr (fst r), snd r)) (tr_rules tr)) form
   | _ => SpecNoMatch
   end.
+
+(* ============================================================================
+   The SUPPORTED FRAGMENT (decidable), on which Proofs/TransformProofs.v shows the
+   model of transform.rs equal to the specification above.
+   ============================================================================ *)
+
+(* flat reading of a specification environment, in binding order: what
+   PatternEnvironment.bindings holds after a match in the fragment *)
+Definition flat_binding (x : cell) (b : binding) : list (cell * cell) :=
+  match b with
+  | BOne f => [(x, f)]
+  | BMany l => flat_map (fun b' => match b' with BOne f => [(x, f)] | BMany _ => [] end) l
+  end.
+Definition flat (e : senv) : list (cell * cell) := flat_map (fun kb => flat_binding (fst kb) (snd kb)) e.
+
+Section Fragment.
+Variable literals : list cell.
+Variable ellipsis : cell.
+
+Definition f_is_var (c : cell) : bool :=
+  is_symbol c && negb (s_is_lit literals c) && negb (s_is_ell ellipsis c) && negb (s_is_under c).
+
+Definition starts_with_ell (d : cell) : bool :=
+  match d with CPair e _ => s_is_ell ellipsis e | _ => false end.
+
+(* S_pat: the pattern after the keyword position is a proper list, nested to any depth,
+   of identifiers (literals, _, variables), non-vector data and such lists; at most one
+   ellipsis per list level, directly after a pattern VARIABLE, followed by a fixed tail
+   of any length.  [seen]: an ellipsis already occurred at this level. *)
+Fixpoint pat_ok (seen : bool) (p : cell) {struct p} : bool :=
+  match p with
+  | CNil => true
+  | CPair a d =>
+      (match a with
+       | CPair _ _ => pat_ok false a
+       | CVec _ => false
+       | CSym _ => negb (s_is_ell ellipsis a)
+       | _ => true
+       end) &&
+      match d with
+      | CPair e d' =>
+          if s_is_ell ellipsis e then negb seen && f_is_var a && pat_ok true d'
+          else pat_ok seen d
+      | _ => pat_ok seen d
+      end
+  | _ => false
+  end.
+
+(* S_use: the part of S_match that depends on the use.  Where a list pattern meets a
+   form, the form is a proper list or not a pair at all; where `x ... tail` with a
+   non-empty tail meets the remaining elements, their number differs from the length of
+   the tail (with exactly that many, R7RS matches zero items and transform.rs does not
+   match: recorded class ellipsis-tail-zero-items). *)
+Fixpoint use_ok (p : cell) (es : list cell) {struct p} : bool :=
+  match p with
+  | CPair a d =>
+      let step :=
+        match es with
+        | e1 :: es' =>
+            (match a with
+             | CPair _ _ => (is_list e1 || negb (is_pair e1)) && use_ok a (elems e1)
+             | _ => true
+             end) && use_ok d es'
+        | [] => true
+        end in
+      match d with
+      | CPair e d' =>
+          if s_is_ell ellipsis e then
+            let k := chain_len d' in
+            (Nat.eqb k 0 || negb (Nat.eqb (length es) k))
+            && use_ok d' (skipn (length es - k) es)
+          else step
+      | _ => step
+      end
+  | _ => true
+  end.
+
+Definition S_match (p u : cell) : bool :=
+  pat_ok false p && (is_list u || negb (is_pair u)) && use_ok p (elems u).
+End Fragment.
